@@ -950,6 +950,66 @@ impl<'a> Lifter<'a> {
         f.0
     }
 
+    /// L27: recognise `for (i, &j) in <list>.iter().enumerate() { <arr>.set(j, e); }` / `{ <arr>[j] = e; }` with `arr` a
+    /// local real array; returns (arr, i, j, list expression, e)
+    fn scatter_loop(&self, f: &syn::ExprForLoop) -> Option<(String, String, String, syn::Expr, syn::Expr)> {
+        let syn::Pat::Tuple(tp) = &*f.pat else { return None };
+        if tp.elems.len() != 2 {
+            return None;
+        }
+        let name_of = |p: &syn::Pat| -> Option<String> {
+            match p {
+                syn::Pat::Ident(i) => Some(i.ident.to_string()),
+                syn::Pat::Reference(r) => match &*r.pat {
+                    syn::Pat::Ident(i) => Some(i.ident.to_string()),
+                    _ => None,
+                },
+                _ => None,
+            }
+        };
+        let (iv, jv) = (name_of(&tp.elems[0])?, name_of(&tp.elems[1])?);
+        let syn::Expr::MethodCall(en) = &*f.expr else { return None };
+        if en.method != "enumerate" {
+            return None;
+        }
+        let syn::Expr::MethodCall(it) = &*en.receiver else { return None };
+        if it.method != "iter" {
+            return None;
+        }
+        if f.body.stmts.len() != 1 {
+            return None;
+        }
+        let is_j = |e: &syn::Expr| -> bool {
+            match e {
+                syn::Expr::Path(p) => p.path.is_ident(&jv),
+                syn::Expr::Unary(u) if matches!(u.op, syn::UnOp::Deref(_)) => matches!(&*u.expr, syn::Expr::Path(p) if p.path.is_ident(&jv)),
+                _ => false,
+            }
+        };
+        let (arr, val) = match &f.body.stmts[0] {
+            syn::Stmt::Expr(syn::Expr::MethodCall(m), _) if m.method == "set" && m.args.len() == 2 && is_j(&m.args[0]) => {
+                let syn::Expr::Path(p) = &*m.receiver else { return None };
+                (p.path.get_ident()?.to_string(), m.args[1].clone())
+            }
+            syn::Stmt::Expr(syn::Expr::Assign(a), _) => {
+                let syn::Expr::Index(ix) = &*a.left else { return None };
+                if !is_j(&ix.index) {
+                    return None;
+                }
+                let syn::Expr::Path(p) = &*ix.expr else { return None };
+                (p.path.get_ident()?.to_string(), (*a.right).clone())
+            }
+            _ => return None,
+        };
+        if self.lookup(&arr).as_deref() != Some("RArr") {
+            return None;
+        }
+        // the stored value must not read the array being written
+        if Self::idents_of(&val).contains(&arr) {
+            return None;
+        }
+        Some((arr, iv, jv, (*it.receiver).clone(), val))
+    }
     /// the summand of a lifted sum as a named spec function of the variables it mentions (so that lemmas can speak
     /// about one term): returns the closure text `|i: int| name(captured.., i)`
     fn hoist_summand(&mut self, src_idents: &[String], iv: &str, body: &Val) -> String {
@@ -977,6 +1037,34 @@ impl<'a> Lifter<'a> {
         self.havocs.push(format!("pub open spec fn {name}({}) -> {} {{ {} }}", ps.join(", "), body.ty, body.text));
         let args: Vec<String> = caps.iter().map(|(n, _)| n.clone()).chain(std::iter::once(iv.to_string())).collect();
         format!("|{iv}: int| crate::{name}({})", args.join(", "))
+    }
+    /// a closure of the lifted code as a named spec function returning a `spec_fn` (so that lemmas can be applied to the
+    /// very same term): returns the call `name(captured..)`
+    fn hoist_closure(&mut self, kind: &str, src_idents: &[String], iv: &str, body: &Val) -> String {
+        let mut caps: Vec<(String, String)> = Vec::new();
+        let mut seen: Vec<String> = vec![iv.to_string()];
+        for fr in self.env.iter().rev() {
+            let mut names: Vec<&String> = fr.keys().collect();
+            names.sort();
+            for n in names {
+                if seen.contains(n) {
+                    continue;
+                }
+                seen.push(n.clone());
+                let mentioned = src_idents.contains(n) || (n == "self_" && src_idents.iter().any(|x| x == "self"));
+                let ty = fr[n].clone();
+                if mentioned && !ty.contains('?') && ty != "closure" {
+                    caps.push((n.clone(), ty));
+                }
+            }
+        }
+        caps.sort();
+        let k = self.havocs.iter().filter(|h| h.contains(&format!("__{kind}"))).count();
+        let name = format!("{}__{kind}{}", self.fn_name, k);
+        let ps: Vec<String> = caps.iter().map(|(n, t)| format!("{n}: {t}")).collect();
+        self.havocs.push(format!("pub open spec fn {name}({}) -> spec_fn(int) -> {} {{ |{iv}: int| {} }}", ps.join(", "), body.ty, body.text));
+        let args: Vec<String> = caps.iter().map(|(n, _)| n.clone()).collect();
+        format!("crate::{name}({})", args.join(", "))
     }
     fn idents_of(e: &impl ToTokens) -> Vec<String> {
         let mut out = Vec::new();
@@ -1394,6 +1482,34 @@ impl<'a> Lifter<'a> {
                 self.bind(&name, &x.ty);
                 let r = self.rest(rest, cont)?;
                 Ok(v(format!("{{ let {name} = {}; {} }}", x.text, r.text), &r.ty))
+            }
+            Expr::ForLoop(f) if self.scatter_loop(f).is_some() => {
+                // L27: `for (i, &j) in list.iter().enumerate() { arr.set(j, e(i)) }` (or `arr[j] = e(i)`): the array with
+                // the elements at list[0], list[1], .. replaced in this order (a later i wins)
+                let (arr, iv, jv, list_e, val_e) = self.scatter_loop(f).unwrap();
+                let list = self.expr(&list_e)?;
+                if list.ty != "Seq<int>" {
+                    return Err(format!("construct outside rule list (lift): scatter loop over {}", list.ty));
+                }
+                self.closure_base.push(self.env.len());
+                self.env.push(HashMap::new());
+                self.bind(&iv, "int");
+                self.bind(&jv, "int");
+                let val = self.scoped(&val_e);
+                self.env.pop();
+                self.closure_base.pop();
+                let val = val?;
+                if val.ty != "real" {
+                    return Err(format!("construct outside rule list (lift): scatter loop storing {}", val.ty));
+                }
+                self.note("L27", e.span(), "scatter loop lifted to an ordered element replacement (later index wins)");
+                let mut ids = Self::idents_of(&list_e);
+                let idx_fn = self.hoist_closure("scatter_idx", &ids, &iv, &v(format!("{}[{iv}]", list.text), "int"));
+                ids.extend(Self::idents_of(&val_e));
+                let val_fn = self.hoist_closure("scatter_val", &ids, &iv, &v(format!("{{ let {jv} = {}[{iv}]; {} }}", list.text, val.text), "real"));
+                self.bind(&arr, "RArr");
+                let r = self.rest(rest, cont)?;
+                Ok(v(format!("{{ let {arr} = scatter({}.len() as int, {idx_fn}, {val_fn}, {arr}); {} }}", list.text, r.text), &r.ty))
             }
             Expr::ForLoop(f) if self.accumulation_loop(f).is_some() => {
                 // L24: `for i in a..b { <lets>; acc += e; }` is `acc + sum_{i=a}^{b-1} e(i)`
@@ -1922,7 +2038,7 @@ impl<'a> Lifter<'a> {
                     "RArr",
                 ));
             }
-            "Array1::zeros" | "Array::zeros" | "Array1::ones" | "Array::ones" if c.args.len() == 1 => {
+            "Array1::zeros" | "Array::zeros" | "Array1::ones" | "Array::ones" | "Quantity::zeros" if c.args.len() == 1 => {
                 let n = self.expr(&c.args[0])?;
                 if n.ty != "int" {
                     return unsupported("zeros/ones shape", whole);
